@@ -384,6 +384,19 @@ func (c C16) Run(t *tape.Tape, opt core.RunOpt) (res core.Result) {
 			frags = append(frags, &c16Frag{name: "<schema>", text: "schema {\n  query: Query\n}\n", refs: []string{"Query"}})
 		}
 	}
+	// input types a directive argument literal (default or use) is written for:
+	// the literal names their required fields, which therefore have to be there
+	// in the load that brings the literal
+	litInputs := map[string]bool{}
+	for _, f := range frags {
+		if f.spec != nil && f.spec.Kind == "directive" {
+			for _, a := range f.spec.Fields {
+				if a.Name == "o" && a.Type != nil {
+					litInputs[a.Type.Name] = true
+				}
+			}
+		}
+	}
 	defOf := map[string]int{}
 	for i, f := range frags {
 		defOf[f.name] = i
@@ -483,7 +496,7 @@ func (c C16) Run(t *tape.Tape, opt core.RunOpt) (res core.Result) {
 				a.loads[load[i]] = append(a.loads[load[i]], texts[i])
 				if extra[i] != "" {
 					el := load[i] + t.Draw(nl-load[i])
-					if sp := frags[i].spec; sp != nil && (sp.Kind == "interface" || len(sp.Implements) > 0) {
+					if sp := frags[i].spec; sp != nil && (sp.Kind == "interface" || len(sp.Implements) > 0 || litInputs[sp.Name]) {
 						// every load has to leave a well-formed schema behind: members
 						// that interface conformance depends on stay in the same load
 						el = load[i]
